@@ -231,6 +231,60 @@ def run_terminal(ctx, unit, patience=30):
     st.see("nontrivial", ("terminal", tuple(unit["targs"]), len(lines)))
 
 
+def run_open_stdin(ctx, unit, patience=20):
+    """--take N on a producer that stays attached (nothing more, or only blanks, after the N-th value), with the error stream
+    on a terminal or on a pipe: the process prints its N rows and ends; what its stderr is connected to changes nothing."""
+    import pty
+    st = ctx.stats
+    binary = ctx.params["binary"]
+    m = s = None
+    if unit["tty"]:
+        m, s = pty.openpty()
+    try:
+        p = subprocess.Popen([binary, "--take", str(unit["take"])] + unit["targs"], stdin=subprocess.PIPE, stdout=subprocess.PIPE,
+                             stderr=s if s is not None else subprocess.PIPE)
+        if s is not None:
+            os.close(s)
+            s = None
+        try:
+            p.stdin.write(b"\n".join(unit["lines"]) + b"\n" + unit["filler"])
+            p.stdin.flush()
+        except BrokenPipeError:
+            pass
+        try:
+            p.wait(timeout=patience)
+        except subprocess.TimeoutExpired:
+            p.kill()
+            p.wait()
+            if patience < 60:
+                if m is not None:
+                    os.close(m)
+                    m = None
+                return run_open_stdin(ctx, unit, patience=60)
+            st.count("conclusive")
+            st.violation("take-does-not-end-the-run", "--take %d with the producer still attached (stderr on a %s): the process was still running %d s after the last wanted value was written" % (
+                unit["take"], "terminal" if unit["tty"] else "pipe", patience), unit, {"args": unit["targs"]})
+            return
+        out = p.stdout.read()
+        try:
+            p.stdin.close()
+        except Exception:
+            pass
+    finally:
+        if s is not None:
+            os.close(s)
+        if m is not None:
+            os.close(m)
+    ref = subprocess.run([binary, "--take", str(unit["take"])] + unit["targs"], input=b"\n".join(unit["lines"]) + b"\n", stdout=subprocess.PIPE, stderr=subprocess.PIPE, timeout=60)
+    st.count("spawns", 2)
+    st.count("conclusive")
+    st.count("open_stdin_take_runs")
+    if p.returncode != 0 or out != ref.stdout:
+        st.violation("take-with-open-stdin", "--take %d with the producer still attached: status %d, stdout %r (closed input: %r)" % (unit["take"], p.returncode, out[:200], ref.stdout[:200]), unit, {"args": unit["targs"]})
+        return
+    st.see("nontrivial", ("open-stdin", unit["tty"], unit["take"], len(unit["filler"]) > 0))
+
+
 def run_positioned(ctx, unit):
     """Standard input is an open file whose offset is not 0 (a caller read a header first): the input is what lies behind the
     offset - the same rows as for those bytes through a pipe."""
@@ -383,6 +437,12 @@ def worker(ctx):
             run_terminal(ctx, unit)
             continue
         if ctx.rng.random() < 0.03:
+            lines = ctx.rng.sample([b'{"a": 1}', b"[1, 2]", b'"x"', b"7", b"null", b'{"k": {"l": []}}', b"true"], 5)
+            unit = {"open_stdin": True, "lines": lines, "take": ctx.rng.choice((1, 2, 3)), "tty": ctx.rng.random() < 0.6, "filler": ctx.rng.choice((b"", b" \n \n", b"\n" * 5000)),
+                    "targs": ctx.rng.choice(([], ["--unique"], ["-c", ".=v"], ["--on-error", "stderr"]))}
+            run_open_stdin(ctx, unit)
+            continue
+        if ctx.rng.random() < 0.03:
             unit = {"positioned": True, "head": ctx.rng.choice((b"header v1\n", b'"skip me"\n', b"# " + b"x" * 9000 + b"\n", b"{")),
                     "lines": ctx.rng.sample([b'{"a": 1}', b"[1, 2]", b'"x"', b"7", b"null", b'{"k": {"l": []}}', b"true"], ctx.rng.choice((1, 3, 5))),
                     "targs": ctx.rng.choice(([], ["--unique"], ["-c", ".=v", "-c", "&index=i"], ["--on-error", "stderr"]))}
@@ -425,6 +485,8 @@ def replay(env, unit):
             run_terminal(ctx, unit)
         elif unit.get("positioned"):
             run_positioned(ctx, unit)
+        elif unit.get("open_stdin"):
+            run_open_stdin(ctx, unit)
         elif unit.get("unreadable"):
             run_unreadable(ctx, unit)
         else:
